@@ -556,8 +556,9 @@ Definition decode_flags (flag : N) : oflags :=
   OF (N.land flag 3) (has flag O_CREATE) (has flag O_EXCL) (has flag O_TRUNC) (has flag O_APPEND).
 
 Definition acc_mask (acc : N) (trunc : bool) : N :=
-  let r := if N.eqb acc 0 || N.eqb acc 2 then 4 else 0 in
-  let w := if N.eqb acc 1 || N.eqb acc 2 || trunc then 2 else 0 in
+  (* ACC_MODE: O_RDONLY -> r, O_WRONLY -> w, O_RDWR -> rw, and the invalid access mode 3 -> rw as well *)
+  let r := if N.eqb acc 0 || N.eqb acc 2 || N.eqb acc 3 then 4 else 0 in
+  let w := if N.eqb acc 1 || N.eqb acc 2 || N.eqb acc 3 || trunc then 2 else 0 in
   N.lor r w.
 
 Definition k_open (s : fsys) (sv : sview) (p : str) (flag perm : N) : fsys * (N + nat) :=
